@@ -405,7 +405,7 @@ class Agg:
 DIGEST_SAMPLE = 8
 SAMPLE_INDICES = (0, 1, 2)
 CHUNK = 100
-MAX_FATAL = 12  # dead/hung runs after which a batch stops early (they are all reported as violations)
+MAX_FATAL = 6  # dead/hung runs after which a batch stops early (they are all reported as violations)
 
 
 def make_spec(mod, verif_seed, index):
